@@ -238,11 +238,22 @@ class VerifPouch(_go.GridObject):
         return 1
 
 
+class VerifPurse(VerifPouch):
+    """a container-like holdable: it has a length, and it is empty (so it is falsy, as any empty Python container)"""
+
+    def __init__(self, payload):
+        super().__init__(payload)
+        self.items = []
+
+    def __len__(self):
+        return len(self.items)
+
+
 def enum_pouch(tier, shard, nshards):
     i = 0
     for hd in HEADINGS:
-        for front in ('pouch', 'key', 'floor', 'wall', 'edge'):
-            for held in ('pouch', 'key', 'none'):
+        for front in ('pouch', 'purse', 'key', 'floor', 'wall', 'edge'):
+            for held in ('pouch', 'purse', 'key', 'none'):
                 for a in ('PICK_N_DROP', 'ACTUATE', 'MOVE_FORWARD'):
                     for via_copy in (False, True):
                         i += 1
@@ -253,7 +264,7 @@ def enum_pouch(tier, shard, nshards):
 def oracle_pouch(case, ctx):
     """pick / drop / swap move the *very objects* (whatever data they carry); nothing is created, lost or left behind"""
     hd = case['hd']
-    mk = {'pouch': lambda tag: VerifPouch(tag), 'key': lambda tag: _go.Key(_go.Color.RED), 'floor': lambda tag: _go.Floor(), 'wall': lambda tag: _go.Wall(), 'none': lambda tag: None}
+    mk = {'pouch': lambda tag: VerifPouch(tag), 'purse': lambda tag: VerifPurse(tag), 'key': lambda tag: _go.Key(_go.Color.RED), 'floor': lambda tag: _go.Floor(), 'wall': lambda tag: _go.Wall(), 'none': lambda tag: None}
     grid = _Grid.from_shape((3, 3))
     pos = {'F': (0, 1), 'B': (2, 1), 'L': (1, 0), 'R': (1, 2)}[hd] if case['front'] == 'edge' else (1, 1)
     f = (pos[0] + M.FWD[hd][0], pos[1] + M.FWD[hd][1])
@@ -274,14 +285,14 @@ def oracle_pouch(case, ctx):
     got_held = tag(n.agent.grid_object)
     exp_front = tag(front_obj) if front_obj is not None else None
     exp_held = tag(held_obj) if held_obj is not None else ('NoneGridObject', None)
-    if case['a'] == 'PICK_N_DROP' and case['front'] in ('pouch', 'key', 'floor'):
-        holdable_front = case['front'] in ('pouch', 'key')
+    if case['a'] == 'PICK_N_DROP' and case['front'] in ('pouch', 'purse', 'key', 'floor'):
+        holdable_front = case['front'] in ('pouch', 'purse', 'key')
         exp_front = tag(held_obj) if held_obj is not None else ('Floor', None)
         exp_held = tag(front_obj) if holdable_front else ('NoneGridObject', None)
     if (got_front, got_held) != (exp_front, exp_held):
         ctx.fail(f'{case["a"]} heading {hd} with {case["front"]} in front and {case["held"]} in hand ({"copy" if case["via_copy"] else "in place"}): '
                  f'front cell now {got_front}, hand now {got_held}; documented: front {exp_front}, hand {exp_held}', {'kind': 'pick_identity', 'action': case['a']})
-    if not case['via_copy'] and case['a'] == 'PICK_N_DROP' and case['front'] in ('pouch', 'key') and held_obj is not None:
+    if not case['via_copy'] and case['a'] == 'PICK_N_DROP' and case['front'] in ('pouch', 'purse', 'key') and held_obj is not None:
         if n.grid[f] is not held_obj or n.agent.grid_object is not front_obj:
             ctx.fail(f'in-place swap of {case["held"]} (hand) and {case["front"]} (front) did not move the objects themselves', {'kind': 'pick_identity'})
     ctx.ev.case(case, nt=(case['a'] == 'PICK_N_DROP' and case['front'] != 'edge'), classes=['front:' + case['front'], 'held:' + case['held']])
